@@ -9,10 +9,46 @@ TRUST = ("Trusted base: Go type checker, go/ssa construction and VTA call graph 
          "instructions the rules reason about, contracts of the standard-library primitives named as 'inherited' in DESIGN.md, and the spec tables of DESIGN.md §4.")
 
 CLAIMS = {
+ "C03": dict(
+   text="Static analysis, level other. Decides, by enumerating every abstract path of the five Environment methods and of every clause of eval (finite-domain path-sensitive abstract interpretation over go/ssa), that scoping is lexical by construction: reference behaviour of Define/Get/GetInCurrentScope/Assign, constructors, who-constructs/who-writes, one fresh child scope per block / for / program / activation, same-scope redeclaration test, no route from a callee to its caller's scope. Does not execute an independent scope model over histories.",
+   technique="path-sensitive abstract interpretation of go/ssa (event words of Environment methods, scope-wiring of eval clauses) + who-writes/who-constructs queries",
+   ref="DESIGN.md §4 C03"),
+ "C04": dict(
+   text="Static analysis, level other. Decides on the event graph of every eval clause, Function.Call and Interpret: unhandled control signals are propagated unchanged before any further event (all statement-carrying sites), the Return clause and Function.Call carry exactly the returned value and stop, the call protocol (callee, callable test, arity test established on every path to the invocation, arguments in order, one invocation, error reported, positional binding), closure = declaring environment, fresh activation under the closure. Does not run programs against a closure-semantics model.",
+   technique="path-sensitive abstract interpretation of go/ssa with deterministic monitor automata (product search over event graphs)",
+   ref="DESIGN.md §4 C04"),
+ "C05": dict(
+   text="Static analysis, level other. Decides that the clauses for if, while, for, break, continue and the top-level loop of Interpret are language-included in the reference automaton of each construct over the events (child evaluation with abstract signal outcome, truthiness test, nil test, return): one arm, condition-body-increment order, Continue still increments, Break leaves only this loop, Return propagates, stray signals reported. Iteration counts of concrete programs are not computed.",
+   technique="event-graph extraction by abstract interpretation + regular-language inclusion against reference automata",
+   ref="DESIGN.md §4 C05"),
+ "C06": dict(
+   text="Static analysis, level other. Decides the error discipline as a typestate property (clean/dirty) over every clause of eval, Function.Call, Interpret and every built-in: no stdout write, stdin read, built-in invocation or unguarded evaluation is reachable after the flag may have been raised; no loop can cycle in the dirty state; RuntimeError is the single reporter and sets the flag; every diagnostic's line is data of the current node or of the signal, and parser Line fields come from token lines. Does not decide the wording of diagnostics nor the 'right' line of a multi-line expression.",
+   technique="typestate analysis (clean/dirty) over abstract event graphs + who-writes queries + provenance of the line argument",
+   ref="DESIGN.md §4 C06"),
+ "C13": dict(
+   text="Static analysis, level other — for determinism the static argument is the natural one. Decides that no nondeterminism source is reachable from main: every map range is order-insensitive or sorted before use, no time/rand/os-identity/runtime-introspection call (time.Now only in the clock built-in), no goroutines/channels/select/unsafe, no address can be printed (%p, pointer-bearing universe types without String()), no package-level state besides the two flags. Modulo the trusted base this is determinism.",
+   technique="enumeration of nondeterminism sources over the VTA-reachable program (map-range order-sensitivity analysis, API who-may-call, type-based global-state aliasing)",
+   ref="DESIGN.md §4 C13"),
+ "C14": dict(
+   text="Static analysis, level other. Decides per eval clause that child evaluations happen exactly once in source order on success paths (prefix on error paths), stores follow the evaluations and store the evaluated value, `||`/`&&` evaluate the right operand iff the left does not decide and return the deciding operand's own value, the truthiness table for every dynamic type of the value universe, and that `!` is !isTruthy.",
+   technique="monitor automata over abstract event graphs; exhaustive exploration of isTruthy per universe type",
+   ref="DESIGN.md §4 C14"),
+ "C15": dict(
+   text="Static analysis, level other. Decides the routing of printing: exactly one fmt.Println(NFC(text(value))) per successful print statement and none otherwise; every value-to-text site (print, number+string, string+operand) is fmt %v on the single representation; nil prints as \"nil\"; the only string representation is Go string. The digits themselves (shortest round trip, exponent switch) are fmt/strconv's contract and are not decided.",
+   technique="monitor automaton on the print clause + formatting-site table check + value universe",
+   ref="DESIGN.md §4 C15"),
  "C16": dict(
    text="Static analysis, level other. Decides the structural necessary condition 'one Go representation per Borno value kind': the value universe (all dynamic types a MakeInterface can put into a Borno value position) is computed from SSA and every producer of a second number/string representation or of a foreign Go type is reported with its site. Does not decide the behaviour of operators on equal representations (C02/C14/C15) and would reject a tree that keeps two representations but treats them identically everywhere.",
    technique="value-universe extraction over go/ssa MakeInterface sites (type-based dataflow classification)",
    ref="DESIGN.md §4 C16"),
+ "C19": dict(
+   text="Static analysis, level other. Decides the exit-status decision list by enumerating all abstract paths of main, runFile and run (64 for bad usage without running anything, non-zero on read failure, 65 iff HadError, else 70 iff HadRuntimeError, else normal return; Interpret only after a false HadError test that follows ScanTokens and Parse), flag ownership by package, the complete who-writes-which-stream table, and that the input built-in reads one line through a reader created once per process. OS behaviour for unreadable files and a last line without newline are not decided.",
+   technique="path enumeration by abstract interpretation (package main) + who-writes / who-calls queries over the call graph",
+   ref="DESIGN.md §4 C19"),
+ "C20": dict(
+   text="Static analysis, level other. Decides the REPL loop automaton (prompt, read, eof → return, otherwise run(line,true) then both flags reset before the next read; no exit reachable from run), that nothing survives a line (fresh scanner/parser/interpreter per line, no loop-carried values, no mutable package-level state by type-based may-alias), and the echo rule (echo iff isRepl and no error; isRepl flows unchanged, false inside function bodies). Byte-level interleaving of prompt and output is not decided.",
+   technique="monitor automaton over the abstract event graph of the REPL loop + global-state may-alias + constant flow of isRepl",
+   ref="DESIGN.md §4 C20"),
 }
 
 PENDING = {}
